@@ -285,11 +285,24 @@ def _negate_needed(t):
     return None
 
 
+def _unbool(t):
+    """a test `bool(E)` is the test `E`"""
+    while isinstance(t, ast.Call) and isinstance(t.func, ast.Name) and t.func.id == "bool" and len(t.args) == 1 and not t.keywords:
+        t = t.args[0]
+    if isinstance(t, ast.UnaryOp) and isinstance(t.op, ast.Not):
+        t.operand = _unbool(t.operand)
+    elif isinstance(t, ast.BoolOp):
+        t.values = [_unbool(v) for v in t.values]
+    return t
+
+
 def polarity(stmts):
     def rec(block):
         out = []
         for s in block:
             _recurse_blocks(s, rec)
+            if isinstance(s, (ast.If, ast.While)):
+                s.test = _unbool(s.test)
             if isinstance(s, ast.If):
                 p = _negate_needed(s.test)
                 while p is not None:
@@ -1387,6 +1400,7 @@ class _ExprNorm(ast.NodeTransformer):
 
     def visit_IfExp(self, node):
         self.generic_visit(node)
+        node.test = _unbool(node.test)
         # negative tests swap the arms: a if x is None else b -> b if x is not None else a
         t = node.test
         flip = None
@@ -3011,6 +3025,7 @@ class Canon:
         b = [ast.fix_missing_locations(_ExprNorm().visit(s_)) for s_ in b]         # expression idioms first (map(f, xs), applied lambdas of table rows): helpers in them are then seen
         # nested function definitions that get inlined are dropped afterwards
         b = lower_matches(b, self._match_args(module, fn))
+        b = norm.lower_conditional_with(b)
         b = lift_ifexp(b)
         b = lift_walrus(b)
         b = norm.first_match_to_next(b)
@@ -3066,6 +3081,7 @@ class Canon:
             b = norm.forward_subst(b, pure_calls=_PURE_EXT)
             b = _drop_dead_temps(b)
             b = norm.default_then_override(b)
+            b = norm.drop_loops_over_falsy(b)
             b = norm.split_parallel_assign(b)          # a, b = rows   with rows a display that was just written in
             b = subst_single_use(b)
             b2 = norm.split_parallel_assign(b)
